@@ -40,6 +40,8 @@ BASE = [
     # terms inserted in non-lexicographic order (the neighbour lists handed to the kernel follow insertion order)
     # documented stale state: a term is cancelled without refresh(), the model still reports its variable
     ("stale", {(0,): 1, (): 3}),
+    # the same with a variable in the MIDDLE of the enumeration cancelled (the other terms keep their, now larger, indices)
+    ("stale-mid", {(0,): 1, (1,): 2, (2,): -1, (0, 2): 0.5, (): 0.5}),
     ("shuffled", {(1, 2): 2, (0, 1): -1, (2, 3): 0.5, (0, 3): 3, (1, 3): -2, (2,): 1, (0,): -0.5}),
     # value slices (few configurations each, see VALUE_ONLY): coefficients that are not exact in single precision, and unit terms
     # next to a weight of 2^26 (the reported value must be the double-precision evaluation)
@@ -71,7 +73,7 @@ def configs(tier):
             for cont in list(conts) + (["QUSO-setmap", "PUSO-setrev"] if kind == "spin" else ["QUBO-setmap", "PUBO-setrev"]):
                 if cont.split("-")[0] in gen.DEG2 and deg > 2:
                     continue
-                if bname == "stale" and (cont == "dict" or "-set" in cont):
+                if bname.startswith("stale") and (cont == "dict" or "-set" in cont):
                     continue
                 schemes = ("int",) if cont in gen.MATRIX else (("str", "gap", "tuple") if "-set" not in cont else ("int",))
                 for sch in schemes:
@@ -96,8 +98,8 @@ def setup(case):
         gen.permute_mapping(M, case["container"].split("-")[1])     # user-chosen enumeration (documented set_mapping API)
     spin = case["kind"] == "spin"
     reported = None
-    if case["base"] == "stale":
-        for k in [k for k in D if k]:
+    if case["base"].startswith("stale"):
+        for k in [k for k in D if k and (case["base"] == "stale" or k == (gen.labels_for(case["scheme"], 3)[1],))]:
             M[k] -= D[k]
             del D[k]
         reported = sorted(M.variables, key=repr)
@@ -157,7 +159,7 @@ def check_result(case, st, res, num_anneals, variables, table, spin, D, how):
     best = None
     for r in res:
         s = r.state
-        if set(s) != set(variables) and not (case["base"] == "stale" and set(s) <= set(variables)):
+        if set(s) != set(variables) and not (case["base"].startswith("stale") and set(s) <= set(variables) and set(s) >= {l for k in D for l in k}):
             v("keyset", "state keys %r, model variables %r" % (sorted(s, key=repr), variables))
             return
         if any(x not in vals for x in s.values()):
